@@ -46,11 +46,49 @@ struct Log {
     late_reader: bool,
 }
 
-async fn read_until_quiet(mut sock: Socket, sizes: Vec<usize>, quiet_ms: u64, msg_mode: bool, mut on_read: impl FnMut(usize, Vec<u8>)) {
+/// Polls a future at most `left` times, then abandons it (the fault kind
+/// "a read is cancelled at an await point", as `select!` or a timeout would).
+struct PollN<F> {
+    fut: std::pin::Pin<Box<F>>,
+    left: u32,
+}
+
+impl<F: std::future::Future> std::future::Future for PollN<F> {
+    type Output = Option<F::Output>;
+    fn poll(mut self: std::pin::Pin<&mut Self>, cx: &mut std::task::Context<'_>) -> std::task::Poll<Self::Output> {
+        match self.fut.as_mut().poll(cx) {
+            std::task::Poll::Ready(v) => std::task::Poll::Ready(Some(v)),
+            std::task::Poll::Pending => {
+                self.left = self.left.saturating_sub(1);
+                if self.left == 0 {
+                    std::task::Poll::Ready(None)
+                } else {
+                    std::task::Poll::Pending
+                }
+            }
+        }
+    }
+}
+
+async fn read_until_quiet(mut sock: Socket, sizes: Vec<usize>, quiet_ms: u64, msg_mode: bool, cancel_pm: u64, mut on_read: impl FnMut(usize, Vec<u8>)) {
     let mut i = 0;
     loop {
         let n = sizes[i % sizes.len()];
         i += 1;
+        if cancel_pm > 0 && !msg_mode && sim::chance(cancel_pm, 1000) {
+            // an abandoned read: whatever it had taken must not be lost
+            let k = 1 + sim::choose(2) as u32;
+            let r = PollN {
+                fut: Box::pin(sock.recv(n)),
+                left: k,
+            }
+            .await;
+            sim::count("fault_read_cancelled");
+            if let Some(Ok(b)) = r {
+                on_read(n, b);
+            }
+            continue;
+        }
         if msg_mode {
             match tokio::time::timeout(Duration::from_millis(quiet_ms), sock.recv_msg()).await {
                 Ok(Ok(m)) => on_read(usize::MAX, m.to_vec()),
@@ -147,6 +185,7 @@ impl E2Run for Sock {
             let accept_delay = sim::choose(3) * sim::choose(400);
             let server_read_sizes: Vec<usize> = (0..6).map(|_| *[1usize, 3, 4, 50, 1000, 1460, 70_000].get(sim::choose(7) as usize).unwrap()).collect();
             let server_msg_mode = !stream_mode || sim::chance(1, 5);
+            let cancel_pm = *[0u64, 0, 100, 300].get(sim::choose(4) as usize).unwrap();
             let reader_lag = if avoid_late { 0 } else { sim::choose(3) * sim::choose(30) };
             if reader_lag > 0 {
                 log2.lock().unwrap().late_reader = true;
@@ -208,7 +247,7 @@ impl E2Run for Sock {
                         if reader_lag > 0 {
                             tokio::time::sleep(Duration::from_millis(reader_lag * 10)).await;
                         }
-                        read_until_quiet(sock, sizes, 4000, server_msg_mode, |n, b| {
+                        read_until_quiet(sock, sizes, 4000, server_msg_mode, cancel_pm, |n, b| {
                             sim::note_trace(6, j as u64, b.len() as u64);
                             if stream_mode {
                                 slog2.lock().unwrap().server_conns[j].reads.push((n, b));
@@ -269,7 +308,7 @@ impl E2Run for Sock {
                     });
                     if expect_reply {
                         let clog2 = clog.clone();
-                        read_until_quiet(sock, read_sizes, 4000, false, |n, b| {
+                        read_until_quiet(sock, read_sizes, 4000, false, cancel_pm, |n, b| {
                             clog2.lock().unwrap().client_conns.entry(c).or_default().reads.push((n, b));
                         })
                         .await;
@@ -498,7 +537,7 @@ impl E2Run for Sock {
             rule: "one run = one listening server and 1..3 clients (stream or datagram sockets, with or without ARP, MTU 100..1500, latency jitter), generated write scripts (1..40 writes of 1 B..100 KB, back-to-back or spaced), read scripts (recv(n) for n in 1..70000, recv_msg), early or late accept, optional reply stream; frame faults: bounded loss (<=3 consecutive per flow), duplication, delay up to 300 ms until the writers are done; seeded task-order perturbation stands in for runtime flavour and worker count; distinct = hash of decisions, frames and reads".into(),
             real_components: vec!["SocketAPI, Socket, SocketSession, TcpListener/TcpStream paths, Tcp, TcpSession, Tcb, Udp, Ipv4, Arp, Pci, Network, Machine, run_internet".into()],
             stub_components: vec!["client and server applications (harness scripts)".into()],
-            fault_kinds: vec!["frame loss (bounded)".into(), "frame duplication".into(), "frame delay / reordering".into(), "latency jitter".into(), "task-order perturbation (poll deferral)".into(), "late accept / late reader".into()],
+            fault_kinds: vec!["read cancelled at an await point".into(), "frame loss (bounded)".into(), "frame duplication".into(), "frame delay / reordering".into(), "latency jitter".into(), "task-order perturbation (poll deferral)".into(), "late accept / late reader".into()],
             assumptions: vec!["task-start orders of a multi-thread runtime are represented by deferrals on one thread; intra-poll data races are out of reach (DESIGN.md section 7)".into()],
         }
     }
